@@ -102,6 +102,16 @@ Definition run_conv_scale (a : list Z) : list Z :=
   | _ => [-1]
   end.
 
+(* CMD ew_scale_mode = 14 : m1 e1 m2 e2 reversed(0/1) -> scale mode, 1 if the IFM receives the OPA pair else 0 *)
+Definition run_ew_scale_mode (a : list Z) : list Z :=
+  match a with
+  | m1 :: e1 :: m2 :: e2 :: r :: nil =>
+      let rev := negb (r =? 0) in
+      let sm := ew_scale_mode (Dy m1 e1) (Dy m2 e2) rev in
+      [sm; if ifm_gets_opa sm rev then 1 else 0]
+  | _ => [-1]
+  end.
+
 Definition run (cmd : Z) (a : list Z) : list Z :=
   if cmd =? 1 then run_quantise_scale a
   else if cmd =? 2 then run_reduced_quantise_scale a
@@ -116,4 +126,5 @@ Definition run (cmd : Z) (a : list Z) : list Z :=
   else if cmd =? 11 then run_fl_div a
   else if cmd =? 12 then run_fl_mul a
   else if cmd =? 13 then run_conv_scale a
+  else if cmd =? 14 then run_ew_scale_mode a
   else [-1].
